@@ -81,10 +81,44 @@ class Spelling:
         return self.rcase(self.r.choice(TYPE_NAMES[t]))
 
 
-def arg_spec(a, sp):
-    """Spec form of a single argument value (data paths become {path...: parts})."""
+def needs_escape(d):
+    """True if ConditionLike.from_spec would not read this literal mapping back as itself."""
+    ks = [k for k in d if isinstance(k, str)]
+    if any("\\path" in k for k in ks):
+        return True
+    return len(d) == 1 and bool(ks) and ks[0].lower().split(".")[0] == "path"
+
+
+def expressible_literal(d):
+    """A literal mapping that needs escaping can only be escaped if the escape code (which
+    is lower-case) applies to every key that has to change."""
+    if not needs_escape(d):
+        return True
+    ks = [k for k in d if isinstance(k, str)]
+    if len(d) == 1 and ks and ks[0].lower().split(".")[0] == "path" and not ks[0].startswith("path"):
+        return False  # 'PATH', 'Path.x' ...: no escaped spelling exists
+    return True
+
+
+def escape_literal(d):
+    return {(k.replace("path", "\\path") if isinstance(k, str) and "path" in k else k): v for k, v in d.items()}
+
+
+def arg_spec(a, sp, depth=0):
+    """Spec form of one argument value: data paths become {path...: parts}; literal
+    mappings that look like path specs are written with the escaped key '\\path' (the
+    parser scans the argument itself and, for a list / mapping argument, its direct
+    children)."""
     if isinstance(a, PathT):
         return path_spec(a, sp)
+    if isinstance(a, dict):
+        if needs_escape(a):
+            return escape_literal(a)
+        if depth == 0:
+            return {k: arg_spec(v, sp, 1) for k, v in a.items()}
+        return a
+    if isinstance(a, list) and depth == 0:
+        return [arg_spec(x, sp, 1) for x in a]
     return a
 
 
@@ -105,21 +139,17 @@ def leaf_spec(l, sp=None):
         if typed:
             v = [conv(x) for x in v] if isinstance(v, list) else conv(v)
         val = arg_spec(v, sp)
-        if isinstance(val, dict) and not isinstance(v, PathT):
-            val = {k: arg_spec(x, sp) for k, x in val.items()}
-        elif isinstance(val, list):
-            val = [arg_spec(x, sp) for x in val]
     elif sg == "multi":
         names = PARAMS[l.name]
-        kw = {k: arg_spec(v, sp) for k, v in l.kwargs.items()}
+        kw = {k: arg_spec(v, sp, 1) for k, v in l.kwargs.items()}
         if sp.coin("arg-shape"):
             val = [kw[n] for n in names if n in kw]
         else:
             val = kw
     elif sg == "varpos":
-        val = [arg_spec(conv(x), sp) for x in l.args]
+        val = [arg_spec(conv(x), sp, 1) for x in l.args]
     elif sg == "varkw":
-        val = {k: arg_spec(v, sp) for k, v in l.kwargs.items()}
+        val = {k: arg_spec(v, sp, 1) for k, v in l.kwargs.items()}
     return {key: val}
 
 
